@@ -38,6 +38,18 @@ the samples that went in.  Clause ids:
   C13.error.unknown_command      command code outside the table raises IOError
   C13.error.version              version byte outside {1, 2} raises IOError
   C13.error.ftype                ftype >= 9 raises IOError
+  C13.arith.truncating_division  the decoder's module-level C-division helper (when importable) equals exact integer
+                                 division truncated toward zero on a stated grid of divisors (= block sizes / mean
+                                 lengths) and dividends (= block sums), see _check_div_helper
+  C13.arith.bitshift_fixup       the decoder's module-level bit-shift / mu-law fix-up helper (when importable) maps every
+                                 representable internal value back to the sample (PCM: << shift; mu-law: code of the rank)
+
+"for all ... block sizes (including a shorter final block), running-mean lengths": the running mean is, by the format,
+an exact integer quotient truncated toward zero with the BLOCK LENGTH resp. the MEAN LENGTH as divisor.  The grid of
+round trips therefore starts with block sizes and mean lengths that are not powers of two - among them the divisors d
+for which binary floating point cannot invert d (k*d*(1/d) != k for some k; computed in _hazard_divisors, not listed) -
+and with signals whose block sums sit exactly on / next to multiples of the divisor (kind "mean_boundary"), followed
+by DIFF0 / QLPC blocks (the only commands that use the mean).
 """
 import io
 import os
@@ -61,7 +73,7 @@ FN_DIFF0, FN_DIFF1, FN_DIFF2, FN_DIFF3, FN_QUIT, FN_BLOCKSIZE, FN_BITSHIFT, FN_Q
 FNSIZE, ULONGSIZE, ENERGYSIZE, BITSHIFTSIZE, LPCQSIZE, LPCQUANT = 2, 2, 3, 2, 2, 5
 TYPE_AU1, TYPE_S16HL, TYPE_S16LH, TYPE_ULAW, TYPE_AU2 = 0, 3, 5, 7, 8
 NWRAP = 3
-N_QUICK, N_THOROUGH = 300, 20000
+N_QUICK, N_THOROUGH = 350, 20000
 DECODE_TIMEOUT_S = 10.0
 VECTORS = ["123_1pcbe", "123_1pcle", "123_1ulaw", "123_2pcbe", "123_2pcle", "123_2ulaw"]
 
@@ -116,6 +128,25 @@ def _tdiv(a, b):
     a = int(a)
     q = abs(a) // b
     return q if a >= 0 else -q
+
+
+_HAZARD_CACHE = {}
+
+
+def _hazard_divisors(hi=256, kmax=2048):
+    """Divisors d <= hi that binary floating point cannot invert: k*d*(1/d) truncates to something other than
+    k for some 0 < k <= kmax (1/d is rounded; for a few d the product of an exact multiple falls one ulp short).
+    Pure float arithmetic of the interpreter - no code of the repository involved.  Powers of two never qualify,
+    so a test vector with a power-of-two block size and mean length can never exercise such a divisor."""
+    key = (hi, kmax)
+    if key not in _HAZARD_CACHE:
+        out = []
+        for d in range(1, hi + 1):
+            r = 1.0 / d
+            if any(int((k * d) * r) != k for k in range(1, kmax + 1)):
+                out.append(d)
+        _HAZARD_CACHE[key] = out
+    return _HAZARD_CACHE[key]
 
 
 # ======================================================================================
@@ -198,7 +229,7 @@ def _internal(vals, b, ftype):
 # ======================================================================================
 # signal generators
 # ======================================================================================
-PCM_KINDS = ["sine_noise", "white", "const", "ramp", "extremes", "bursts", "shifted", "quiet", "blockshift"]
+PCM_KINDS = ["sine_noise", "white", "const", "ramp", "extremes", "bursts", "shifted", "quiet", "blockshift", "mean_boundary"]
 ULAW_KINDS = ["u_random", "u_quiet", "u_silence", "u_shifted", "u_sine"]
 
 
@@ -212,8 +243,40 @@ def _ulaw_compress(x):
     return ~(sign | (e << 4) | m) & 0xFF
 
 
-def _gen_channel(rng, kind, n):
+def _gen_channel(rng, kind, n, ctx=None):
     t = np.arange(n)
+    if kind == "mean_boundary":
+        # blocks (of the header block size; the last one shorter) whose sum - plus the version 2 rounding term
+        # len//2 - is k*len + d with d in {0, +-1}: the dividend of the block-mean division sits on / next to an
+        # exact multiple of the block length, k of either sign and of small and large magnitude.  `hold` keeps
+        # one k for a run of blocks (flat, or alternating k / k+1 at random) so that the sum over a window of
+        # nmean block means is (close to) an exact multiple of nmean too.
+        ctx = ctx or {}
+        B = int(ctx.get("blocksize", 16))
+        v2 = int(ctx.get("version", 2)) >= 2
+        hold = int(ctx.get("hold", 1))
+        x = np.zeros(n, dtype=np.int64)
+        left, k, jitter = 0, 0, False
+        for start in range(0, n, B):
+            ln = min(B, n - start)
+            if left <= 0:
+                amp = int(rng.choice([3, 40, 1000, 20000]))
+                k = int(rng.integers(-amp, amp + 1))
+                # version 1 window sums are exact multiples when flat, version 2 ones (+ nmean//2) when jittered
+                jitter = bool(hold > 1 and rng.random() < (0.8 if v2 else 0.2))
+                left = hold if hold == 1 else int(rng.integers(hold, 3 * hold))
+            left -= 1
+            kk = k + (int(rng.integers(0, 2)) if jitter else 0)
+            d = 0 if hold > 1 else int(rng.choice([0, 0, 0, 1, -1]))
+            target = kk * ln + d - (ln // 2 if v2 else 0)
+            spread = int(rng.choice([0, 2, 50, 3000]))
+            seg = kk + rng.integers(-spread, spread + 1, ln).astype(np.int64)
+            diff = target - int(seg.sum())
+            seg += diff // ln
+            seg[: diff % ln] += 1
+            assert int(seg.sum()) == target and -32768 <= seg.min() and seg.max() <= 32767
+            x[start : start + ln] = seg
+        return x
     if kind == "sine_noise":
         amp = float(rng.choice([30, 500, 5000, 30000]))
         f = rng.uniform(0.002, 0.45)
@@ -295,7 +358,8 @@ def _draw_settings(rng, tier, force):
     s["nchan"] = int(rng.choice([1, 2, 3], p=[0.4, 0.35, 0.25]))
     s["nmean"] = int(rng.integers(0, 5))
     s["maxnlpc"] = int(rng.choice([0, 1, 2, 3, 4, 5, 6, 7, 8], p=[0.24, 0.06, 0.1, 0.1, 0.1, 0.08, 0.08, 0.08, 0.16]))
-    s["blocksize"] = int(rng.choice([8, 9, 16, 31, 32, 64, 100, 128, 255, 256, int(rng.integers(8, 257))]))
+    s["blocksize"] = int(rng.choice([8, 9, 16, 31, 32, 64, 100, 128, 255, 256, int(rng.integers(8, 257)),
+                                     int(rng.choice(_hazard_divisors()))]))
     r = rng.random()
     if r < 0.15:
         n = int(rng.integers(1, 50))
@@ -386,6 +450,9 @@ def _encode(rng, samples, s, stats, inject=None, hdr_ftype=None):
                 cmd = FN_ZERO
             elif can_lpc and rng.random() < s["p_lpc"]:
                 cmd = FN_QLPC
+            elif s.get("cmd_pool"):  # the encoder's free choice of predictor, restricted to a given set
+                pool = [c for c in s["cmd_pool"] if c != FN_QLPC or can_lpc]
+                cmd = int(pool[int(rng.integers(0, len(pool)))])
             else:
                 cmd = int(rng.integers(0, 4))
             stats["cmd"][cmd] = stats["cmd"].get(cmd, 0) + 1
@@ -496,7 +563,7 @@ def _build(case, stats=None):
     stats = stats if stats is not None else _new_stats()
     rng = _common.make_rng(case["seed"], "C13.%s.%d" % (case.get("salt", "rt"), case["idx"]))
     s = _draw_settings(rng, case.get("tier", "quick"), case.get("force"))
-    cols = [_gen_channel(rng, k, s["n"]) for k in s["kinds"]]
+    cols = [_gen_channel(rng, k, s["n"], s) for k in s["kinds"]]
     samples = np.stack(cols, axis=1)
     inject = tuple(case["inject"]) if case.get("inject") else None
     stream = _encode(rng, samples, s, stats, inject=inject, hdr_ftype=case.get("hdr_ftype"))
@@ -730,8 +797,10 @@ def _check_roundtrip(case, tmpdir, stats=None):
             fails.append(
                 (
                     clause,
-                    "%s [route=%s dtype=%s v%d ftype=%d nchan=%d nmean=%d maxnlpc=%d bs=%d n=%d; spec decoder reproduces input: %s]"
-                    % (msg, route, dtype, s["version"], s["ftype"], s["nchan"], s["nmean"], s["maxnlpc"], s["blocksize"], s["n"], agree),
+                    "%s [route=%s dtype=%s v%d ftype=%d nchan=%d nmean=%d maxnlpc=%d bs=%d n=%d signals=%s; spec decoder reproduces input: %s]"
+                    % (msg, route, dtype, s["version"], s["ftype"], s["nchan"], s["nmean"], s["maxnlpc"], s["blocksize"], s["n"],
+                       "/".join(s["kinds"]) + (" (block sums / mean-window sums on or next to exact multiples of the block length / mean length: running-mean division)"
+                                               if "mean_boundary" in s["kinds"] else ""), agree),
                 )
             )
     return fails, s, len(blob)
@@ -796,6 +865,107 @@ def _check_vector(name, route, dtype=None):
 
 
 # ======================================================================================
+# module-level arithmetic helpers of the decoder, checked directly (when they are importable)
+# ======================================================================================
+DIV_HELPER, FIX_HELPER = "c99_div", "fix_bitshift"  # module-level functions of pydrobert.speech._sphere
+DIV_KSMALL = 64
+
+
+def _helper(name):
+    try:
+        from pydrobert.speech import _sphere
+    except Exception:
+        return None
+    f = getattr(_sphere, name, None)
+    return f if callable(f) else None
+
+
+def _div_quotients(seed, b, nrand):
+    ks = set(range(-DIV_KSMALL, DIV_KSMALL + 1))
+    for e in range(7, 16):
+        ks |= {(1 << e) - 1, 1 << e, -(1 << e), 1 - (1 << e)}
+    rng = _common.make_rng(seed, "C13.div.%d" % b)
+    ks |= {int(v) for v in rng.integers(-32768, 32768, nrand)}
+    return sorted(ks)
+
+
+def _check_div_helper(case):
+    """The running means of the format are C integer quotients (truncated toward zero).  One case = one divisor b
+    (a block size or mean length); dividends a = k*b + d for every |k| <= 64, k = +-2^e, +-(2^e - 1) up to 2^15 and
+    `nrand` seeded k in the 16-bit sample range (a block mean is a sample-sized number), d in {0, +-1, +-(b//2)},
+    each passed as a Python int and (d in {0, +-1}) as the numpy int64 the decoder's `.sum()` produces.
+    -> (clause, message) or None"""
+    f = _helper(DIV_HELPER)
+    if f is None:
+        return None
+    b = int(case["b"])
+    bad = []
+    n = 0
+    for k in _div_quotients(case["seed"], b, case.get("nrand", 200)):
+        for d in sorted({0, 1, -1, b // 2, -(b // 2)}):
+            a = k * b + d
+            exp = _tdiv(a, b)
+            args = [a] + ([np.int64(a)] if d in (0, 1, -1) else [])
+            for arg in args:
+                n += 1
+                try:
+                    got = f(arg, b)
+                    ok = bool(got == exp) and float(got) == float(exp)
+                except Exception as e:  # noqa: BLE001
+                    got, ok = "%s: %s" % (type(e).__name__, e), False
+                if not ok:
+                    bad.append((a, type(arg).__name__, got, exp))
+    case["_n"] = n
+    if bad:
+        a, tn, got, exp = min(bad, key=lambda t: (abs(t[0]), t[0] < 0))
+        return "C13.arith.truncating_division", (
+            "%s(%d [%s], %d) = %s, exact quotient truncated toward zero is %d (%d of %d dividends wrong for this divisor; "
+            "this is the division behind the running block mean / mean offset)" % (DIV_HELPER, a, tn, b, got, exp, len(bad), n)
+        )
+    return None
+
+
+def _check_fix_helper(case):
+    """fix-up of one block after prediction: PCM internal value v at bit shift b is the sample v << b; a lossless
+    mu-law internal value is the signed rank of its code among the codes representable at shift b (table written
+    from the G.711 closed form above).  One case = (ftype, bitshift) over every representable internal value."""
+    f = _helper(FIX_HELPER)
+    if f is None:
+        return None
+    ftype, b = int(case["ftype"]), int(case["bitshift"])
+    if ftype in (TYPE_AU1, TYPE_AU2):
+        tab = _ulaw_rank_table(b, ftype)
+        pairs = sorted((v, c) for c, v in enumerate(tab) if v is not None)
+    else:
+        lim = 32768 >> b
+        rng = _common.make_rng(case["seed"], "C13.fix.%d.%d" % (ftype, b))
+        vs = sorted({-lim, lim - 1, 0, 1, -1} | {int(v) for v in rng.integers(-lim, lim, 300)})
+        pairs = [(v, v << b) for v in vs]
+    buf = np.array([v for v, _ in pairs], dtype=np.int32)
+    exp = np.array([c for _, c in pairs], dtype=np.int64)
+    try:
+        f(buf, len(buf), b, ftype)
+    except Exception as e:  # noqa: BLE001
+        return "C13.arith.bitshift_fixup", "%s(ftype=%d, bitshift=%d) raised %s: %s" % (FIX_HELPER, ftype, b, type(e).__name__, e)
+    if not np.array_equal(buf.astype(np.int64), exp):
+        i = int(np.argmax(buf.astype(np.int64) != exp))
+        return "C13.arith.bitshift_fixup", "%s(ftype=%d, bitshift=%d): internal value %d -> %d, expected %d (%d of %d wrong)" % (
+            FIX_HELPER, ftype, b, pairs[i][0], buf[i], exp[i], int((buf.astype(np.int64) != exp).sum()), len(exp))
+    return None
+
+
+def _helper_cases(seed, tier):
+    quick = tier == "quick"
+    hz = _hazard_divisors()
+    rest = [b for b in range(1, 257 if quick else 1025) if b not in hz]
+    cases = [{"kind": "helper_div", "seed": seed, "b": b, "nrand": 200 if quick else 1000} for b in hz + rest]
+    for ftype in (TYPE_S16HL, TYPE_AU1, TYPE_AU2):
+        for b in range(0, 13 if ftype == TYPE_S16HL else ULAW_MAX_SHIFT + 1):
+            cases.append({"kind": "helper_fix", "seed": seed, "ftype": ftype, "bitshift": b})
+    return cases
+
+
+# ======================================================================================
 # case lists
 # ======================================================================================
 def _grid_cases(seed, tier):
@@ -815,6 +985,23 @@ def _grid_cases(seed, tier):
         cases.append(c)
         idx += 1
 
+    # "for all ... block sizes (including a shorter final block), running-mean lengths": divisors of the mean
+    # arithmetic that are NOT powers of two (all divisors <= 256 that floating point cannot invert, plus a few
+    # ordinary ones), block sums on / next to exact multiples, every following block DIFF0 or QLPC (the commands
+    # that use the mean), nmean = 1 first (a wrong block mean is then always the next block's offset)
+    hz = _hazard_divisors()
+    sizes = hz + [3, 5, 7, 10, 12, 100, 255]
+    for i, B in enumerate(sizes):
+        for j, version in enumerate((1, 2) if i < 6 else ((1 + i % 2),)):
+            add(version=version, nmean=(1, 1, 2, 3, 4)[(i + j) % 5] if i >= 4 else 1, ftype=(TYPE_S16HL, TYPE_S16LH)[i % 2],
+                nchan=1 + (i + j) % 2, maxnlpc=(0, 2, 3)[i % 3], blocksize=B, n=8 * B + B // 3, kinds=["mean_boundary"],
+                cmd_pool=[FN_DIFF0, FN_DIFF0, FN_QLPC], p_lpc=0.3, shift_policy="none", p_midsize=0.0, p_under=0.0)
+    # the same for the other divisor, the mean LENGTH: nmean itself not invertible / not a power of two, short
+    # blocks, the block mean held over more than nmean blocks
+    for i, (nmean, version) in enumerate([(m, v) for m in hz[:3] for v in (1, 2)] + [(5, 1), (6, 2), (7, 1), (12, 2)]):
+        add(version=version, nmean=nmean, ftype=TYPE_S16HL, nchan=2, maxnlpc=(0, 2)[i % 2], blocksize=(4, 3, 5)[i % 3],
+            n=(4, 3, 5)[i % 3] * min(6 * nmean, 400), kinds=["mean_boundary"], hold=nmean + 4,
+            cmd_pool=[FN_DIFF0, FN_DIFF0, FN_QLPC], p_lpc=0.3, shift_policy="none", p_midsize=0.0, p_under=0.0)
     # negative running means with rounding (version 1 and 2), several mean lengths, DIFF0 heavy
     for version in (2, 1):
         for nmean in (4, 1, 3):
@@ -948,6 +1135,32 @@ def run(tier: str, seed: int) -> dict:
             if f:
                 fail(f[0], case, f[1])
 
+        # 1b. module-level arithmetic helpers of the decoder against exact integer arithmetic
+        t_h = time.time()
+        n_div = n_fix = n_dividends = 0
+        have = {n: _helper(n) is not None for n in (DIV_HELPER, FIX_HELPER)}
+        for hcase in _helper_cases(seed, tier):
+            if not have[DIV_HELPER if hcase["kind"] == "helper_div" else FIX_HELPER]:
+                continue
+            if hcase["kind"] == "helper_div":
+                f = _check_div_helper(hcase)
+                n_div += 1
+                n_dividends += hcase.pop("_n", 0)
+            else:
+                f = _check_fix_helper(hcase)
+                n_fix += 1
+            col.case(hcase, nontrivial=True, sample=hcase if n_div == 1 and n_fix == 0 else None)
+            if f:
+                fail(f[0], hcase, f[1])
+        col.note(
+            "decoder helpers checked directly: %s %s (%d divisors: every b <= %d, the %d float-non-invertible ones %s first; "
+            "%d (dividend, type) evaluations against exact truncating division), %s %s (%d (type, bit shift) tables); %.1f s"
+            % (DIV_HELPER, "present" if have[DIV_HELPER] else "NOT importable - clause C13.arith.truncating_division not run",
+               n_div, 256 if quick else 1024, len(_hazard_divisors()), _hazard_divisors(), n_dividends,
+               FIX_HELPER, "present" if have[FIX_HELPER] else "NOT importable - clause C13.arith.bitshift_fixup not run",
+               n_fix, time.time() - t_h)
+        )
+
         # 2. round trips: the deterministic grid first, then the error clauses, then random streams
         cases = _grid_cases(seed, tier)
         errors_pending = True
@@ -1011,11 +1224,17 @@ def run(tier: str, seed: int) -> dict:
     return col.result(
         rule="one case = one stream (or one reference vector / one corrupted stream) decoded by read_signal; a round-trip "
         "case is non-trivial when it holds at least one residual-coded block (DIFF0-3 / QLPC); error and vector cases "
-        "always are",
+        "always are; one helper case = one divisor (resp. one (sample type, bit shift)) of a module-level decoder helper "
+        "over its whole stated grid of dividends (internal values)",
         bound="BOUNDED: %s tier, seed %d: six sph2pipe vectors; %d-stream target of random encoder output (channels 1-3, "
         "<= %d samples/channel, block sizes 1..256, nmean 0..4, LPC order <= 8, bit shift <= 12 (mu-law <= 7), versions "
-        "1-2, types S16HL/S16LH/AU1/AU2); truncations, unknown commands, version bytes and ftypes as enumerated"
-        % (tier, seed, N_QUICK if quick else N_THOROUGH, 3400),
+        "1-2, types S16HL/S16LH/AU1/AU2), preceded by a deterministic grid that includes every block size <= 256 that "
+        "floating point cannot invert (%s) and 3,5,7,10,12,100,255 with nmean 1..4, and mean lengths %s with block sizes "
+        "3..5, on signals whose block sums lie on / next to exact multiples of the divisor, DIFF0/QLPC only; the decoder's "
+        "division helper on divisors 1..%d x (|quotient| <= %d, +-2^e, +-(2^e-1), 200+ seeded 16-bit quotients) x remainders "
+        "{0,+-1,+-b//2}; truncations, unknown commands, version bytes and ftypes as enumerated"
+        % (tier, seed, N_QUICK if quick else N_THOROUGH, 3400, _hazard_divisors(), _hazard_divisors()[:3] + [5, 6, 7, 12],
+           256 if quick else 1024, DIV_KSMALL),
         assumptions=ASSUMPTIONS,
     )
 
@@ -1032,6 +1251,13 @@ def replay(case: dict):
     if kind in ("trunc", "badcmd", "version", "ftype"):
         f = _check_error(case)
         return (f is None), ("IOError raised" if f is None else "%s: %s" % f)
+    if kind in ("helper_div", "helper_fix"):
+        name = DIV_HELPER if kind == "helper_div" else FIX_HELPER
+        if _helper(name) is None:
+            return True, "decoder has no importable module-level %s; nothing to check" % name
+        case = dict(case)
+        f = _check_div_helper(case) if kind == "helper_div" else _check_fix_helper(case)
+        return (f is None), ("%s agrees with exact integer arithmetic on the case's grid" % name if f is None else "%s: %s" % f)
     if kind == "rt":
         tmpdir = tempfile.mkdtemp(prefix="c13_")
         try:
